@@ -58,13 +58,6 @@ def decode_cred(b: bytes) -> str:
     return b.decode("utf-8", "backslashreplace")
 
 
-def render_host(atyp: int, addr: bytes) -> str:
-    """the text form Socks5Proxy gives the raw address (library functions = parameters of the model)"""
-    if atyp == 1: return socket.inet_ntop(socket.AF_INET, addr)
-    if atyp == 4: return socket.inet_ntop(socket.AF_INET6, addr)
-    return addr.decode("ascii", "replace")
-
-
 def segments(data: bytes, cuts):
     out, prev = [], 0
     for c in list(cuts) + [len(data)]:
@@ -95,22 +88,37 @@ class Check(PropertyCheck):
     prop = "C21"
     design_ref = "§5 C21"
     level_text = ("Lean theorems about an executable model of Socks5Proxy (three parsers + synchronous machine + "
-                  "asynchronous machine with the auth-hook/connect waiting states and the paused-event queue): "
-                  "lawful/seg_independent (ALL byte strings, ALL segmentations, from every state), "
-                  "schedule_independent (ALL placements of hook/connect completions), parse inversion "
-                  "(connects_exactly_requested both directions), reply_wellformed, reject_codes, "
-                  "after_request_relayed_once_in_order, constants_match_code (SOCKS5_* constants regenerated from modes.py); the model is tied to the real layer by differential runs "
-                  "(state, buffer, every command in order, server address, bytes given to the child) under whole / "
+                  "asynchronous machine with the auth-hook/connect waiting states and Layer's paused-event queue, replayed "
+                  "event by event to the handler then in force + the address TEXT: IPv4 dotted quad, glibc inet_ntop6 / RFC 5952 "
+                  "form, ascii-replace decoding): lawful/seg_independent (ALL byte strings, ALL segmentations, from every state); "
+                  "schedule_independent / deferred_handshake_relays / buffered_request_then_data_relayed (ALL placements of "
+                  "hook/connect completions, data buffered while the hook is pending); parse inversion "
+                  "(connects_exactly_requested both directions) and connects_to_requested_text (the stored host is hostText of "
+                  "the requested address; textV4_roundtrip/textV4_injective: the dotted quad reads back to the 4 bytes; "
+                  "textDomain_ascii: ASCII names are stored byte for byte; textV6_compresses_leftmost_longest_zero_run: RFC 5952 "
+                  "§4.2 run choice for every address); method_selection (every offered-method list), greeting_incomplete_silent; "
+                  "reply_wellformed, reject_codes, other_commands_rejected / bind_and_udp_associate_rejected, reject_closes; "
+                  "after_request_relayed_once_in_order; constants_match_code (SOCKS5_* constants regenerated from modes.py). "
+                  "The model is tied to the real layer by differential runs (state, buffer, every command in order, the host TEXT "
+                  "and port of context.server.address as PREDICTED by the model, bytes given to the child) under whole / "
                   "segmented / deferred-completion delivery.")
     level_note = ("trusted: Lean kernel; hand-written model tied differentially (not verified) to modes.Socks5Proxy, "
-                  "DestinationKnown.finish_start and Layer's pause/replay; socket.inet_ntop and bytes.decode('ascii','replace') "
-                  "/ ('utf-8','backslashreplace') are applied by the harness to the model's raw (ATYP, address, port) / credentials "
-                  "(not modelled); the position of the child's Start event is not compared (NextLayer replays it on first data); "
-                  "domains with non-ASCII bytes are compared only through the replace-decoding (the oracle demands exact "
-                  "equality for ASCII domains); Log commands are not observed. Observed, allowed by the statement and therefore not "
-                  "flagged: the no-acceptable-method answer is 05 FF followed by 8 more bytes (the 10-byte reply shape), the "
-                  "RFC 1929 sub-negotiation version byte is not checked, a wrong version is only rejected once 2 bytes arrived "
-                  "and a bad request header once 5 bytes arrived.")
+                  "DestinationKnown.finish_start and Layer's pause/replay. The address text is now inside the model (the harness no "
+                  "longer renders it); what is proved about it: IPv4 and ASCII names read back exactly, IPv6 zero-run choice meets "
+                  "RFC 5952 — that the IPv6 text as a whole reads back to the 16 bytes is NOT proved, it is checked on the "
+                  "implementation by the oracle (ipaddress.IPv6Address(host) == requested, all 256 zero/non-zero word patterns, "
+                  "embedded-IPv4 forms, every hex width). The credentials handed to the socks5_auth hook are compared after the "
+                  "harness applies bytes.decode('utf-8','backslashreplace') to the model's raw bytes (not modelled). The position "
+                  "of the child's Start event is not compared (NextLayer replays it on first data); a client EOF given to a still "
+                  "undecided NextLayer is answered by NextLayer's own CloseConnection, which the harness attributes to the child. "
+                  "For names with non-ASCII bytes the oracle demands one character per byte, ASCII bytes unchanged and no "
+                  "non-ASCII byte turned into ASCII (exact equality for ASCII names); Log commands are not observed. Oracle "
+                  "leniencies (the statement is silent, so they are not flagged): the no-acceptable-method answer is 05 FF "
+                  "followed by 8 more bytes, the RFC 1929 sub-negotiation version byte is not checked, a wrong version is only "
+                  "rejected once 2 bytes arrived and a bad request header once 5 bytes arrived (until then 'pending' is accepted), "
+                  "any non-zero REP (or none) for a bad request VER / RSV, any of REP 1,3,4,5,6 for a failed connect, and closing "
+                  "after client EOF during an incomplete handshake is not demanded. No case is ever skipped (no Skip()), "
+                  "model_lines never abstains, and known() recognises nothing (no recorded finding).")
     technique = "Lean 4 proof (Incremental/Lawful instance, parser inversion, simulation of the deferred machine) + differential correspondence through world.py"
     rule = ("streams = greeting [+ RFC1929 auth] + request + trailing data, built from a grammar (70%), with one-field "
             "mutations (wrong version at each stage, 0 methods, missing method, CMD/RSV/ATYP variants, domain length 0/255, "
@@ -123,14 +131,53 @@ class Check(PropertyCheck):
     budget = {"quick": 6000, "thorough": 400000}
     time_budget = {"quick": 12, "thorough": 200}
     fingerprints = ["mitmproxy.proxy.layers.modes:Socks5Proxy", "mitmproxy.proxy.layers.modes:DestinationKnown",
-                    "mitmproxy.proxy.layer:Layer.handle_event", "mitmproxy.proxy.layer:NextLayer._handle_event"]
+                    "mitmproxy.proxy.layer:Layer.handle_event", "mitmproxy.proxy.layer:Layer._Layer__continue",
+                    "mitmproxy.proxy.layer:Layer._Layer__process", "mitmproxy.proxy.layer:NextLayer._handle_event"]
     trusted_base = ["harness/common/world.py as a stand-in for proxy/server.py's command interpreter",
-                    "socket.inet_ntop / bytes.decode as the text rendering of addresses and credentials"]
+                    "bytes.decode('utf-8','backslashreplace') as the text rendering of credentials (addresses: modelled)"]
     parallel = False
 
     def setup(self, tier):
         # serial in the quick tier (370 cases/s; a fork pool costs more than it gains on a loaded machine)
         self.parallel = tier == "thorough"
+        self.known_selftest()
+
+    def known_selftest(self):
+        """C21 has no recorded finding: known() must excuse nothing; and the oracle's lenient branches must still flag
+        their near misses (AssertionError here ends the run as INFRA, not as a pass)."""
+        from common.check import load_known
+        assert load_known(self.prop) == {}, "C21 has no findings; known_findings.json lists one"
+        base = {"auth": 0, "policy": "T", "eager": 1, "conn_ok": 1, "data_hex": "050100", "cuts": []}
+        for f in ("segmentation dependence: x", "valid handshake not accepted: x", "reply not well-formed: x"):
+            assert self.known(base, {}, f) is None
+        am = self.addr_matches
+        # non-ASCII name: same length, ASCII kept, non-ASCII not turned into ASCII — and the near misses
+        raw = b"a\xe4.b"
+        assert am(["a\ufffd.b", 80], (3, raw, 80))
+        assert not am(["a?.b", 80], (3, raw, 80)), "non-ASCII byte replaced by an ASCII character must be flagged"
+        assert not am(["a\ufffd.c", 80], (3, raw, 80)), "changed ASCII byte must be flagged"
+        assert not am(["a\ufffd.", 80], (3, raw, 80)), "dropped character must be flagged"
+        assert not am(["a\ufffd.b", 81], (3, raw, 80)), "wrong port must be flagged"
+        assert not am(["example.org", 80], (3, b"example.com", 80))
+        assert am(["::ffff:1.2.3.4", 1], (4, bytes(10) + b"\xff\xff\x01\x02\x03\x04", 1))
+        assert not am(["::ffff:1.2.3.5", 1], (4, bytes(10) + b"\xff\xff\x01\x02\x03\x04", 1))
+        assert not am(["1.2.3.4", 1], (1, b"\x01\x02\x03\x05", 1))
+        # lenient 'pending' branch: only while the message is incomplete and nothing was sent / closed
+        hs = dict(base, data_hex="0501000502")            # bad CMD visible, request header incomplete (2 of 5 bytes)
+        ref = self.reference(hs)
+        assert ref["kind"] == "reject" and ref["may_pend"]
+        pend = {"sent": "0500", "child": "", "addr": None, "opens": [], "closed": False, "phase": "connect",
+                "child_close": False, "child_started": False}
+        assert self.against_reference(hs, pend, ref) == []
+        assert self.against_reference(hs, dict(pend, sent="050005000001000000000000"), ref), "early success reply must be flagged"
+        assert self.against_reference(hs, dict(pend, child="41"), ref), "relaying without handshake must be flagged"
+        full = dict(base, data_hex="0501000502000100")    # 5 header bytes there: rejection is due
+        ref2 = self.reference(full)
+        assert ref2["kind"] == "reject" and not ref2["may_pend"]
+        assert self.against_reference(full, pend, ref2), "a complete bad header left pending must be flagged"
+        rej = dict(pend, sent="0500" + "05070001000000000000", closed=True, phase="done")
+        assert self.against_reference(full, rej, ref2) == []
+        assert self.against_reference(full, dict(rej, sent="0500" + "05080001000000000000"), ref2), "wrong REP must be flagged"
 
     # ------------------------------------------------------------------ (T) constants regenerated from modes.py
     CONSTS = ["SOCKS5_VERSION", "SOCKS5_METHOD_NO_AUTHENTICATION_REQUIRED", "SOCKS5_METHOD_USER_PASSWORD_AUTHENTICATION",
@@ -337,7 +384,9 @@ class Check(PropertyCheck):
             except ValueError: return False
         if all(c < 0x80 for c in raw):
             return host == raw.decode("ascii")
-        return True   # non-ASCII "domain": no exactness demanded here (see level_note)
+        # a "domain" with non-ASCII bytes has no exact text: demand that nothing else changes — one character per
+        # byte, every ASCII byte unchanged, and no non-ASCII byte turned into an ASCII character
+        return len(host) == len(raw) and all((chr(b) == ch) if b < 0x80 else (ord(ch) >= 0x80) for b, ch in zip(raw, host))
 
     def oracle(self, case, obs):
         fails = []
@@ -453,8 +502,8 @@ class Check(PropertyCheck):
         addr, child_started, rest = [], False, []
         for t in toks:
             if t.startswith("A:"):
-                _, a, ad, p = t.split(":")
-                addr.append([render_host(int(a), unhx(ad)), int(p)])
+                _, a, ad, p, text = t.split(":")       # the model PREDICTS the host text (hostText in Model/C21.lean)
+                addr.append([unhx(text).decode("utf-8"), int(p)])
             elif t == "CS":
                 child_started = True
             elif t.startswith("H:"):
@@ -485,7 +534,12 @@ class Check(PropertyCheck):
         out = ["ref:" + ref["kind"] + (":" + ref["stage"] if ref["kind"] == "reject" else ""),
                "impl:" + o["phase"], f"auth{case['auth']}:{case['policy']}", f"eager{case['eager']}:ok{case['conn_ok']}",
                "segs:" + str(min(len(case.get("cuts") or []) + 1, 9))]
-        if ref.get("dest"): out.append("atyp:" + str(ref["dest"][0]))
+        if ref.get("dest"):
+            out.append("atyp:" + str(ref["dest"][0]))
+            a = obs["whole"]["addr"]
+            if a and ref["dest"][0] == 4:
+                out.append("v6:" + ("embedded-v4" if "." in a[0] else "compressed" if "::" in a[0] else "full"))
+            if a and ref["dest"][0] == 3 and any(b >= 0x80 for b in ref["dest"][1]): out.append("domain:non-ascii")
         if ref["kind"] == "connect" and ref["trail"]:
             out.append("trailing-data")
             tl = len(ref["trail"])
@@ -705,11 +759,52 @@ class Check(PropertyCheck):
                     c["eof"] = 1; c["eof_before_c"] = rng.randint(0, 2)
                 yield c
 
+    def gen_hosts(self, rng, tier):
+        """address classes for the text the model predicts: every pattern of zero / non-zero 16-bit words of an IPv6
+        address (longest-run choice, ties, leading/trailing runs), embedded-IPv4 forms, word values at every hex width,
+        IPv4 bytes at every decimal width, names with non-ASCII bytes"""
+        wv = [1, 0xf, 0x10, 0xff, 0x100, 0xfff, 0x1000, 0xffff, 0xabcd, 0x0a00]
+        def v6cases():
+            for m in range(256):
+                ws = [(rng.pick(wv) if (m >> i) & 1 else 0) for i in range(8)]
+                yield b"".join(w.to_bytes(2, "big") for w in ws)
+            for tail in (b"\x01\x02\x03\x04", b"\x00\x00\x00\x05", b"\x00\x01\x00\x00", b"\xff\xff\xff\xff", b"\x00\x00\x01\x00"):
+                yield bytes(10) + b"\xff\xff" + tail         # ::ffff:a.b.c.d
+                yield bytes(12) + tail                        # ::a.b.c.d
+                yield bytes(10) + b"\xff\xfe" + tail
+                yield bytes(8) + b"\xff\xff\x00\x00" + tail   # ::ffff:0:a.b.c.d
+                yield b"\x00\x64\xff\x9b" + bytes(8) + tail  # 64:ff9b::
+            while True:
+                yield bytes(rng.pick([0, 0, 0, 1, 0xff, rng.getrandbits(8)]) for _ in range(16))
+        def v4cases():
+            for a in (0, 1, 9, 10, 99, 100, 127, 199, 200, 255):
+                yield bytes([a, 255 - a, (a * 7) & 255, a])
+            while True:
+                yield rng.bytes_(4)
+        def domcases():
+            while True:
+                n = rng.pick([1, 2, 3, 8, 64, 255])
+                yield bytes(rng.pick([0x61, 0x2e, 0x2d, 0x30, 0x41, 0x7f, 0x80, 0xc3, 0xa9, 0xe4, 0xff, 0x00, 0x20]) for _ in range(n))
+        gens = [(4, v6cases()), (4, v6cases()), (1, v4cases()), (3, domcases())]
+        k = 0
+        while True:
+            atyp, g = gens[k % len(gens)]; k += 1
+            addr = next(g)
+            port = rng.pick([0, 1, 80, 443, 65535, rng.randint(0, 65535)])
+            req = bytes([5, 1, 0, atyp]) + (bytes([len(addr)]) if atyp == 3 else b"") + addr + bytes([port >> 8, port & 255])
+            trail = rng.pick([b"", b"x"])
+            data = b"\x05\x01\x00" + req + trail
+            base = {"auth": 0, "policy": "T", "eager": rng.randint(0, 1), "conn_ok": 1, "data_hex": hx(data),
+                    "cuts": rng.pick([[], [3], [len(data) - 1]]), "sched": [],
+                    "truth": {"atyp": atyp, "addr_hex": hx(addr), "port": port, "trail_hex": hx(trail), "user_hex": "-", "pass_hex": "-"}}
+            yield base
+
     def generate(self, rng, tier):
         # round-robin so that every budget sees the same mix: grammar/mutation/raw, size classes, small-scope, truncation
-        subs = [self.gen_random(rng, tier), self.gen_small(rng, tier), self.gen_canon(rng, tier), self.gen_sizes(rng, tier)]
-        pattern = [0, 3, 1, 0, 3, 2, 0]
-        alive = [True, True, True, True]
+        subs = [self.gen_random(rng, tier), self.gen_small(rng, tier), self.gen_canon(rng, tier), self.gen_sizes(rng, tier),
+                self.gen_hosts(rng, tier)]
+        pattern = [0, 3, 1, 0, 4, 3, 2, 0, 4]
+        alive = [True] * 5
         while True:
             for k in pattern:
                 if not alive[k]: k = 0
